@@ -6,6 +6,7 @@
 #pragma once
 #include "build.hpp"
 #include <functional>
+#include <set>
 
 namespace sim {
 
@@ -21,6 +22,10 @@ struct RgnData {
   struct Cell {
     mpz_class i; // int / bool(0,1) / ref address
     int obj = 0; // for references
+    // tag analysis of the region domain (intrinsic add_tag): tags attached to the
+    // data in this cell. Tracked for copies only (store of a variable, load), which
+    // under-approximates any taint semantics: fewer obligations, never more.
+    std::shared_ptr<const std::set<int>> tags;
   };
   std::map<mpz_class, Cell> cells;
 };
@@ -32,6 +37,7 @@ struct Value {
   int obj = 0; // REF: object id (0 = null)
   std::shared_ptr<ArrData> arr;
   std::shared_ptr<RgnData> rgn;
+  std::shared_ptr<const std::set<int>> tags; // see RgnData::Cell::tags
   static Value mk_int(const mpz_class &v) {
     Value x;
     x.k = INT;
